@@ -1,5 +1,5 @@
 (* GENERATED on every run by harness/translate/c02.py from
-   src/lenskit/pipeline/runner.py and src/lenskit/pipeline/_impl.py -- do not edit. *)
+   src/lenskit/pipeline/runner.py, src/lenskit/pipeline/_impl.py and src/lenskit/pipeline/builder.py -- do not edit. *)
 From Coq Require Import List String Bool.
 Import ListNotations.
 Open Scope string_scope.
@@ -16,3 +16,6 @@ Definition pipeline_members_used : list string := ["name"; "node"; "node_input_c
 Definition status_dispatch : list (string * string) := [("finished", "return state if required or present else None"); ("in-progress", "raise PipelineError"); ("failed", "raise RuntimeError")].
 Definition status_writes : list string := ["in-progress"; "finished"; "failed"].
 Definition handler_reraises_same_exception : bool := true.
+(* PipelineBuilder.connect: for each keyword wiring k=n, the tests on n in order and the node name stored *)
+Definition connect_wiring : list (string * string) := [("isinstance(n, Node)", "cast(Node[Any], n).name"); ("else", "self.literal(n).name")].
+Definition default_connection_body : list string := ["if not isinstance(node, Node): node = self.literal(node)"; "self._default_connections[name] = node.name"].
